@@ -81,8 +81,8 @@ META = {
                       "as C05."), "note": _N},
  "C11": {"level": _lv("callbacks of scripted agents compared with order objects, fill records and holdings at callback time.",
                       "as C05."), "note": _N},
- "C12": {"level": _lv("the real Fundamentals code on proxies through real NumPy object arrays; covariance and log-return identities as polynomial identities; paths across chunks, parameter changes and shocks; the parameters the runner registers per configured market group.",
-                      "3 markets (thorough 4), chunk 2-3, horizon 7."), "note": _N + "; Cholesky, the normal sampler and exp are contract stubs: distributional statements hold under z ~ N(0,I) and L.L^T = cov"},
+ "C12": {"level": _lv("the real Fundamentals code on proxies through real NumPy object arrays; covariance and log-return identities as polynomial identities; paths across chunks, parameter changes and shocks; a market starting at start_at > 0 with back-dated changes; the parameters the runner registers per configured market group.",
+                      "3 markets (thorough 4), chunk 2-3 (late start: 2, 3, 100), start_at 0, 2 or 3, horizon 7."), "note": _N + "; Cholesky, the normal sampler and exp are contract stubs: distributional statements hold under z ~ N(0,I) and L.L^T = cov"},
  "C13": {"level": _lv("a user event with solver-chosen hook specifications in a real run; invocations counted per occurrence.",
                       "<= 2 hooks per event, time lists of <= 2 entries (thorough 3) over [-1, T+1], T = 3 steps."), "note": _N},
  "C14": {"level": _lv("both shocks in real multi-market two-session runs with a symbolic rate.",
